@@ -193,9 +193,24 @@ def main(argv=None):
         for rel, h in led.get(u.name, {}).get('skeleton', {}).items():
             if skel_now.get(rel) != h:
                 changed = True      # a class or module the unit's functions live in changed shape (new method, decorator, base, attribute)
+        # repository files a unit reads as DATA (the grammar objects behind the derived tree shapes): a change there is a change of the unit's subject
+        df_now = {}
+        for rel in getattr(u, 'data_files', []):
+            try:
+                import hashlib
+                df_now[rel] = hashlib.sha256(open(os.path.join(source.REPO, rel), 'rb').read()).hexdigest()
+            except Exception:
+                df_now[rel] = 'missing'
+        for rel, h in led.get(u.name, {}).get('datafiles', {}).items():
+            if df_now.get(rel) != h:
+                changed = True
         for e in r['errors']:
             if e.startswith('unsupported') and (changed or not led or getattr(u, 'scans_repo', False)):
                 undecided.append((u.name, e))
+            elif changed and (e.startswith('engine crash') or e.startswith('crash')):
+                # the contract itself fell over on CHANGED code (e.g. a loop contract that names a local the change renamed): it no longer fits the function.
+                # Undecided, like any other construct outside the modelled subset; on unchanged code the same crash stays a checker error.
+                undecided.append((u.name, 'unsupported: the contract does not fit the changed function (%s)' % e.splitlines()[0][:160]))
             else:
                 crashes.append((u.name, e))
         if not r['obligations'] and not r['errors']:
@@ -235,7 +250,7 @@ def main(argv=None):
                 undecided.append((u.name, 'solver unknown on %s (%s)' % (ob['name'], ob.get('reason'))))
         if desc is not None:
             new_led[u.name] = {'ast_sha256': desc['ast_sha256'], 'obligations': len(r['obligations']),
-                               'labels': sorted(set(names)), 'closure': {q: closure_now[q] for q in r['inlined'] if q in closure_now}, 'skeleton': skel_now}
+                               'labels': sorted(set(names)), 'closure': {q: closure_now[q] for q in r['inlined'] if q in closure_now}, 'skeleton': skel_now, 'datafiles': df_now}
             old = led.get(u.name)
             if old and not changed and not args.update_ledger and old['obligations'] != len(r['obligations']) and not r['errors']:
                 crashes.append((u.name, 'ledger: obligation count %d != %d for unchanged function'
